@@ -717,6 +717,19 @@ class CoreScenario(Scenario):
             bid = self.a.bodies[bid].parent
         return False
 
+    def xreach(self, bid, _depth=0):
+        """methods in the static call tree of a body, continued through the condition() blocks of the methods it
+        reaches (and of the body itself)"""
+        a = self.a
+        out = set(a.tree_methods.get(bid, []))
+        if _depth > 6:
+            return out
+        for cid, (n, e) in a.conds.items():
+            if e == bid or e in out:
+                for b in n["branches"]:
+                    out |= self.xreach(b["bid"], _depth + 1)
+        return out
+
     def taken_from_outside(self, bid, encl, stim, obs):
         """A method the branch would call is executed in this cycle for a caller outside the enclosing
         body: the branch "could not be executed" in the words of condition()'s documentation, so a later
@@ -749,6 +762,12 @@ class CoreScenario(Scenario):
                     continue
             if any(a.method_relation(b, t)[0] != "NOT" for b in group):
                 self.hit("cond_earlier_branch_lost_callee_to_outside_transaction")
+                return True
+            # a method that holds a condition() block of its own: its branches are alternatives of one body and their
+            # callees belong to the static call tree of whichever merged transaction runs - a running outside
+            # transaction that reaches such a method holds the block and everything its branches reach for this cycle
+            if self.xreach(t) & set().union(*(self.xreach(b) for b in group)):
+                self.hit("cond_earlier_branch_lost_shared_block_to_outside_transaction")
                 return True
         return False
 
